@@ -61,6 +61,8 @@ pub enum Action {
     Isolate(u8),
     /// prefix only: the application changes the node's election priority (Raft::set_priority)
     SetPrio(u8, u8),
+    /// prefix only: Settle/Settle0 stop applying handed-out entries (apply-lag nodes) while set
+    HoldApply(bool),
     /// prefix-only: drop all in-flight messages
     DropAll,
 }
